@@ -345,10 +345,34 @@ def presolver_gate(rep, F, tag):
         R.check(canon(ir.sym_local(0)) == 'is_some(self.reduce_map)', 'is_reduced' + tag, 'is_reduced returns %s' % canon(ir.sym_local(0)), ir.loc())
         m = F.one(name='make_reduction_map')
         ok = False
+        bad_ = []
         for val, ret, ev, tr in Walker(m, cut_loops=True).leaves():
-            k = [x for x in val if x.startswith('lt(var:mreduced, len(arg2))')]
-            if k:
+            if ret[0] != 's':
+                continue
+            red = None          # "fewer rows kept than there are": read in whichever way the test is written
+            for x, v in val.items():
+                xx = re.sub(r'#\d+$', '', x)
+                a_, b_ = 'var:mreduced', 'len(arg2)'
+                forms = {'lt(%s, %s)' % (a_, b_): v, 'gt(%s, %s)' % (b_, a_): v, 'ne(%s, %s)' % (a_, b_): v, 'ne(%s, %s)' % (b_, a_): v,
+                         'eq(%s, %s)' % (a_, b_): 1 - v, 'eq(%s, %s)' % (b_, a_): 1 - v, 'ge(%s, %s)' % (a_, b_): 1 - v, 'le(%s, %s)' % (b_, a_): 1 - v}
+                if xx in forms:
+                    red = forms[xx]
+            if red is None:
+                continue
+            rtxt = str(ret[1])
+            # a local given its value in the two branches: take the assignment on this path
+            for mm in re.finditer(r'var:(\w+)', str(ret[1])):
+                ls = [i for i, l in enumerate(m.locals) if l['n'] == mm.group(1)]
+                got = [canon(m.sym_rvalue(st['rv'])) for bi, si, st in m.assignments() if bi in tr and not st['p']['p'] and st['p']['l'] in ls]
+                if len(got) == 1:
+                    rtxt = rtxt.replace('var:' + mm.group(1), got[0])
+            some = 'Option::Some(' in rtxt
+            none = 'Option::None' in rtxt
+            if (red == 1 and some and not none) or (red == 0 and none and not some):
                 ok = True
+            else:
+                bad_.append((red, rtxt[:60]))
+        ok = ok and not bad_
         R.check(ok, 'some-iff-reduced' + tag, 'reduce_map is not Some exactly when mreduced < len(b)', m.loc())
 
     R.guard(body)
